@@ -1,0 +1,642 @@
+//! C07 adapter: connection close reports.
+//!
+//! Two levels behind one line protocol:
+//!
+//! * S1 — the real [`ProtocolSet`] with harness-owned protocol receivers and manager receiver
+//!   (`protocols`, `drop_receiver`, `fill_channel`, `recv`, `report_*`, `permit`, ...). A report
+//!   call runs as a task on a current-thread runtime and is polled to quiescence after every
+//!   operation; the observation is the state of the call and the length of every queue.
+//! * S2 — `s2 cause=.. dead=.. when=..`: two real `Litep2p` nodes on 127.0.0.1 with three user
+//!   protocols each, driven through the public API on a multi-thread runtime. The observation is
+//!   the event sequence of node A (application and per protocol), the outcome of a re-dial and of
+//!   opening a substream on a surviving protocol. Nothing is timed: absence of an event within a
+//!   generous timeout is a distinct observation.
+
+use crate::{
+    codec::ProtocolCodec,
+    config::ConfigBuilder,
+    crypto::ed25519::Keypair,
+    error::SubstreamError,
+    protocol::{
+        InnerTransportEvent, ProtocolSet, SubstreamKeepAlive, TransportEvent, TransportService,
+        UserProtocol,
+    },
+    substream::Substream,
+    transport::{
+        manager::{ProtocolContext, TransportManagerEvent},
+        tcp::config::Config as TcpConfig,
+    },
+    types::{protocol::ProtocolName, ConnectionId, SubstreamId},
+    verif::{peer, VerifBox},
+    Litep2p, Litep2pEvent, PeerId,
+};
+
+use futures::StreamExt;
+use multiaddr::Multiaddr;
+use tokio::sync::mpsc::{channel, unbounded_channel, Receiver, Sender, UnboundedReceiver, UnboundedSender};
+
+use std::{collections::HashMap, sync::Arc, time::Duration};
+
+// ---------------------------------------------------------------------------------------------
+// S1
+// ---------------------------------------------------------------------------------------------
+
+type CallResult = (ProtocolSet, bool);
+
+struct S1 {
+    set: Option<ProtocolSet>,
+    task: Option<tokio::task::JoinHandle<CallResult>>,
+    /// Result of the last call that returned (`None` = no call made yet / consumed).
+    last: Option<bool>,
+    rxs: Vec<Option<Receiver<InnerTransportEvent>>>,
+    txs: Vec<Sender<InnerTransportEvent>>,
+    mgr_rx: Option<Receiver<TransportManagerEvent>>,
+    mgr_tx: Sender<TransportManagerEvent>,
+    held: Vec<Box<dyn std::any::Any>>,
+}
+
+fn proto_name(i: usize) -> ProtocolName {
+    ProtocolName::from(format!("/c07/{i}"))
+}
+
+impl S1 {
+    fn new(n: usize, cap: usize, mcap: usize) -> Self {
+        let (mgr_tx, mgr_rx) = channel(mcap.max(1));
+        let mut rxs = Vec::new();
+        let mut txs = Vec::new();
+        let mut protocols = HashMap::new();
+        for i in 0..n {
+            let (tx, rx) = channel(cap.max(1));
+            protocols.insert(
+                proto_name(i),
+                ProtocolContext {
+                    codec: ProtocolCodec::Identity(32),
+                    tx: tx.clone(),
+                    fallback_names: Vec::new(),
+                    keep_alive: SubstreamKeepAlive::Yes,
+                },
+            );
+            rxs.push(Some(rx));
+            txs.push(tx);
+        }
+        let set = ProtocolSet::new(
+            ConnectionId::from(7usize),
+            mgr_tx.clone(),
+            Default::default(),
+            protocols,
+        );
+        Self {
+            set: Some(set),
+            task: None,
+            last: None,
+            rxs,
+            txs,
+            mgr_rx: Some(mgr_rx),
+            mgr_tx,
+            held: Vec::new(),
+        }
+    }
+
+    /// Let the call in flight run as far as it can.
+    async fn settle(&mut self) {
+        for _ in 0..32 {
+            tokio::task::yield_now().await;
+        }
+        if let Some(task) = &self.task {
+            if task.is_finished() {
+                let (set, ok) = self.task.take().unwrap().await.expect("report task");
+                self.set = Some(set);
+                self.last = Some(ok);
+            }
+        }
+    }
+
+    fn snapshot(&self) -> String {
+        let call = match (&self.task, self.last) {
+            (Some(_), _) => "blocked",
+            (None, Some(true)) => "ok",
+            (None, Some(false)) => "err",
+            (None, None) => "idle",
+        };
+        let q: Vec<String> = self
+            .rxs
+            .iter()
+            .map(|rx| match rx {
+                Some(rx) => rx.len().to_string(),
+                None => "x".to_string(),
+            })
+            .collect();
+        let m = match &self.mgr_rx {
+            Some(rx) => rx.len().to_string(),
+            None => "x".to_string(),
+        };
+        format!("call={call} q={} m={m}", q.join(","))
+    }
+
+    fn msg_letter(&mut self, event: InnerTransportEvent) -> &'static str {
+        match event {
+            InnerTransportEvent::ConnectionEstablished { sender, .. } => {
+                self.held.push(Box::new(sender));
+                "E"
+            }
+            InnerTransportEvent::ConnectionClosed { .. } => "C",
+            InnerTransportEvent::SubstreamOpened { .. } => "O",
+            InnerTransportEvent::SubstreamOpenFailure { .. } => "X",
+            InnerTransportEvent::DialFailure { .. } => "F",
+        }
+    }
+
+    async fn step(&mut self, t: &[&str]) -> String {
+        let idx = |s: &str| s.parse::<usize>().ok();
+        let ret: String = match t {
+            ["drop_receiver", i] => match idx(i) {
+                Some(i) if i < self.rxs.len() => {
+                    self.rxs[i] = None;
+                    "ok".into()
+                }
+                _ => "none".into(),
+            },
+            ["fill_channel", i] => match idx(i) {
+                Some(i) if i < self.txs.len() => {
+                    while self.txs[i]
+                        .try_send(InnerTransportEvent::DialFailure {
+                            peer: peer(1),
+                            addresses: Vec::new(),
+                        })
+                        .is_ok()
+                    {}
+                    "ok".into()
+                }
+                _ => "none".into(),
+            },
+            ["recv", i] => match idx(i) {
+                Some(i) if i < self.rxs.len() => {
+                    let got = self.rxs[i].as_mut().and_then(|rx| rx.try_recv().ok());
+                    match got {
+                        Some(event) => self.msg_letter(event).into(),
+                        None => "none".into(),
+                    }
+                }
+                _ => "none".into(),
+            },
+            ["drop_mgr"] => {
+                self.mgr_rx = None;
+                "ok".into()
+            }
+            ["fill_mgr"] => {
+                while self
+                    .mgr_tx
+                    .try_send(TransportManagerEvent::ConnectionClosed {
+                        peer: peer(2),
+                        connection: ConnectionId::from(99usize),
+                    })
+                    .is_ok()
+                {}
+                "ok".into()
+            }
+            ["recv_mgr"] => match self.mgr_rx.as_mut().and_then(|rx| rx.try_recv().ok()) {
+                Some(TransportManagerEvent::ConnectionClosed { connection, .. }) =>
+                    if connection == ConnectionId::from(7usize) {
+                        "C".into()
+                    } else {
+                        "F".into()
+                    },
+                None => "none".into(),
+            },
+            ["release"] => {
+                self.held.clear();
+                "ok".into()
+            }
+            ["permit"] => match &mut self.set {
+                Some(set) => match set.try_get_permit() {
+                    Some(_permit) => "some".into(),
+                    None => "none".into(),
+                },
+                None => "busy".into(),
+            },
+            ["report_established"] | ["report_closed"] | ["report_substream_failure", _] => {
+                match self.set.take() {
+                    None => "busy".into(),
+                    Some(mut set) => {
+                        self.last = None;
+                        let op = t[0].to_string();
+                        let target = t.get(1).and_then(|s| idx(s)).unwrap_or(0);
+                        self.task = Some(tokio::spawn(async move {
+                            let ok = match op.as_str() {
+                                "report_established" => set
+                                    .report_connection_established(
+                                        peer(1),
+                                        crate::transport::Endpoint::listener(
+                                            "/ip4/127.0.0.1/tcp/1".parse().expect("addr"),
+                                            ConnectionId::from(7usize),
+                                        ),
+                                    )
+                                    .await
+                                    .is_ok(),
+                                "report_closed" => set
+                                    .report_connection_closed(peer(1), ConnectionId::from(7usize))
+                                    .await
+                                    .is_ok(),
+                                _ => set
+                                    .report_substream_open_failure(
+                                        proto_name(target),
+                                        SubstreamId::from(1usize),
+                                        SubstreamError::ConnectionClosed,
+                                    )
+                                    .await
+                                    .is_ok(),
+                            };
+                            (set, ok)
+                        }));
+                        "started".into()
+                    }
+                }
+            }
+            _ => return "bad-op".into(),
+        };
+        self.settle().await;
+        format!("{ret} {}", self.snapshot())
+    }
+}
+
+// ---------------------------------------------------------------------------------------------
+// S2
+// ---------------------------------------------------------------------------------------------
+
+enum ProtoCmd {
+    Open(PeerId),
+    ForceClose(PeerId),
+    Exit,
+}
+
+/// (protocol index, event letter)
+type ProtoEvent = (usize, char);
+
+struct Proto {
+    index: usize,
+    cmd_rx: UnboundedReceiver<ProtoCmd>,
+    ev_tx: UnboundedSender<ProtoEvent>,
+}
+
+#[async_trait::async_trait]
+impl UserProtocol for Proto {
+    fn protocol(&self) -> ProtocolName {
+        proto_name(self.index)
+    }
+
+    fn codec(&self) -> ProtocolCodec {
+        ProtocolCodec::UnsignedVarint(None)
+    }
+
+    async fn run(mut self: Box<Self>, mut service: TransportService) -> crate::Result<()> {
+        let mut substreams: Vec<Substream> = Vec::new();
+        loop {
+            tokio::select! {
+                event = service.next() => match event {
+                    None => return Ok(()),
+                    Some(TransportEvent::ConnectionEstablished { .. }) => { let _ = self.ev_tx.send((self.index, 'E')); }
+                    Some(TransportEvent::ConnectionClosed { .. }) => {
+                        substreams.clear();
+                        let _ = self.ev_tx.send((self.index, 'C'));
+                    }
+                    Some(TransportEvent::SubstreamOpened { substream, .. }) => {
+                        substreams.push(substream);
+                        let _ = self.ev_tx.send((self.index, 'O'));
+                    }
+                    Some(TransportEvent::SubstreamOpenFailure { .. }) => { let _ = self.ev_tx.send((self.index, 'X')); }
+                    Some(TransportEvent::DialFailure { .. }) => { let _ = self.ev_tx.send((self.index, 'D')); }
+                },
+                command = self.cmd_rx.recv() => match command {
+                    None | Some(ProtoCmd::Exit) => return Ok(()),
+                    Some(ProtoCmd::Open(peer)) => {
+                        if service.open_substream(peer).is_err() {
+                            let _ = self.ev_tx.send((self.index, 'X'));
+                        }
+                    }
+                    Some(ProtoCmd::ForceClose(peer)) => { let _ = service.force_close(peer); }
+                },
+            }
+        }
+    }
+}
+
+enum NodeCmd {
+    DialAddress(Multiaddr, tokio::sync::oneshot::Sender<String>),
+}
+
+struct Node {
+    peer: PeerId,
+    address: Multiaddr,
+    app_rx: UnboundedReceiver<char>,
+    proto_rx: UnboundedReceiver<ProtoEvent>,
+    proto_cmd: Vec<UnboundedSender<ProtoCmd>>,
+    node_cmd: UnboundedSender<NodeCmd>,
+    task: tokio::task::JoinHandle<()>,
+    /// Everything seen so far.
+    app: String,
+    protos: Vec<String>,
+}
+
+const N_PROTO: usize = 3;
+
+impl Node {
+    /// Must be called inside the runtime.
+    fn new(keep_alive: Duration) -> Self {
+        let (ev_tx, proto_rx) = unbounded_channel();
+        let mut proto_cmd = Vec::new();
+        let mut builder = ConfigBuilder::new()
+            .with_keypair(Keypair::generate())
+            .with_tcp(TcpConfig {
+                listen_addresses: vec!["/ip4/127.0.0.1/tcp/0".parse().expect("addr")],
+                ..Default::default()
+            })
+            .with_keep_alive_timeout(keep_alive);
+        for index in 0..N_PROTO {
+            let (cmd_tx, cmd_rx) = unbounded_channel();
+            proto_cmd.push(cmd_tx);
+            builder = builder.with_user_protocol(Box::new(Proto {
+                index,
+                cmd_rx,
+                ev_tx: ev_tx.clone(),
+            }));
+        }
+        let mut litep2p = Litep2p::new(builder.build()).expect("litep2p");
+        let peer = *litep2p.local_peer_id();
+        let address = litep2p
+            .listen_addresses()
+            .next()
+            .expect("listen address")
+            .clone();
+        let (app_tx, app_rx) = unbounded_channel();
+        let (node_cmd, mut node_rx) = unbounded_channel::<NodeCmd>();
+        let task = tokio::spawn(async move {
+            loop {
+                tokio::select! {
+                    event = litep2p.next_event() => match event {
+                        None => return,
+                        Some(Litep2pEvent::ConnectionEstablished { .. }) => { let _ = app_tx.send('E'); }
+                        Some(Litep2pEvent::ConnectionClosed { .. }) => { let _ = app_tx.send('C'); }
+                        Some(Litep2pEvent::DialFailure { .. }) => { let _ = app_tx.send('D'); }
+                        Some(_) => {}
+                    },
+                    command = node_rx.recv() => match command {
+                        None => return,
+                        Some(NodeCmd::DialAddress(address, reply)) => {
+                            let result = match litep2p.dial_address(address).await {
+                                Ok(()) => "attempted".to_string(),
+                                Err(crate::Error::AlreadyConnected) => "already".to_string(),
+                                Err(_) => "refused".to_string(),
+                            };
+                            let _ = reply.send(result);
+                        }
+                    },
+                }
+            }
+        });
+        Self {
+            peer,
+            address,
+            app_rx,
+            proto_rx,
+            proto_cmd,
+            node_cmd,
+            task,
+            app: String::new(),
+            protos: vec![String::new(); N_PROTO],
+        }
+    }
+
+    fn drain(&mut self) {
+        while let Ok(c) = self.app_rx.try_recv() {
+            self.app.push(c);
+        }
+        while let Ok((i, c)) = self.proto_rx.try_recv() {
+            self.protos[i].push(c);
+        }
+    }
+
+    /// Wait until `cond` holds on the events seen so far; `false` = it never did.
+    async fn wait(&mut self, limit: Duration, cond: impl Fn(&Node) -> bool) -> bool {
+        let deadline = tokio::time::Instant::now() + limit;
+        loop {
+            self.drain();
+            if cond(self) {
+                return true;
+            }
+            if tokio::time::Instant::now() >= deadline {
+                return false;
+            }
+            tokio::time::sleep(Duration::from_millis(10)).await;
+        }
+    }
+}
+
+impl Drop for Node {
+    fn drop(&mut self) {
+        self.task.abort();
+    }
+}
+
+fn count(s: &str, c: char) -> usize {
+    s.chars().filter(|x| *x == c).count()
+}
+
+fn show(s: &str) -> String {
+    if s.is_empty() {
+        "-".to_string()
+    } else {
+        s.to_string()
+    }
+}
+
+async fn scenario(args: HashMap<&str, &str>) -> String {
+    let cause = *args.get("cause").unwrap_or(&"remote_drop");
+    let dead: Option<usize> = args.get("dead").and_then(|s| s.parse().ok()).filter(|i| *i < N_PROTO);
+    let before = args.get("when").map(|w| *w == "before").unwrap_or(false);
+    let via: usize = args.get("via").and_then(|s| s.parse().ok()).filter(|i| *i < N_PROTO).unwrap_or(0);
+    let long = Duration::from_secs(60);
+    let wait = Duration::from_secs(6);
+    let settle = Duration::from_millis(250);
+
+    let mut a = Node::new(if cause == "keepalive" { Duration::from_millis(800) } else { long });
+    let mut b = Node::new(long);
+    let a_addr = a.address.clone().with(multiaddr::Protocol::P2p(a.peer.into()));
+    let b_addr = b.address.clone().with(multiaddr::Protocol::P2p(b.peer.into()));
+    let live: Vec<usize> = (0..N_PROTO).filter(|i| Some(*i) != dead).collect();
+
+    if let (Some(i), true) = (dead, before) {
+        let _ = a.proto_cmd[i].send(ProtoCmd::Exit);
+        tokio::time::sleep(Duration::from_millis(150)).await;
+    }
+
+    // B dials A.
+    let (tx, rx) = tokio::sync::oneshot::channel();
+    let _ = b.node_cmd.send(NodeCmd::DialAddress(a_addr.clone(), tx));
+    let _ = rx.await;
+    if !b.wait(wait, |n| count(&n.app, 'E') >= 1).await {
+        return "inconclusive".to_string();
+    }
+    {
+        let live = live.clone();
+        a.wait(wait, move |n| count(&n.app, 'E') >= 1 && live.iter().all(|i| count(&n.protos[*i], 'E') >= 1))
+            .await;
+    }
+    tokio::time::sleep(settle).await;
+
+    if let (Some(i), false) = (dead, before) {
+        a.wait(wait, move |n| count(&n.protos[i], 'E') >= 1).await;
+        let _ = a.proto_cmd[i].send(ProtoCmd::Exit);
+        tokio::time::sleep(Duration::from_millis(150)).await;
+    }
+
+    // A substream on a surviving protocol while another protocol is gone.
+    let mut live_result = "skip";
+    if cause == "live_substream" {
+        let _ = b.proto_cmd[via].send(ProtoCmd::Open(a.peer));
+        live_result = if a.wait(wait, move |n| count(&n.protos[via], 'O') >= 1).await { "ok" } else { "none" };
+    }
+
+    // The termination cause.
+    match cause {
+        "remote_drop" | "live_substream" => {
+            let _ = b.proto_cmd[via].send(ProtoCmd::ForceClose(a.peer));
+        }
+        "force_close" => {
+            let _ = a.proto_cmd[via].send(ProtoCmd::ForceClose(b.peer));
+        }
+        "dead_substream" => {
+            if let Some(i) = dead {
+                let _ = b.proto_cmd[i].send(ProtoCmd::Open(a.peer));
+            }
+        }
+        _ => {}
+    }
+    a.wait(wait, |n| count(&n.app, 'C') >= 1).await;
+    b.wait(wait, |n| count(&n.app, 'C') >= 1).await;
+    tokio::time::sleep(settle).await;
+    a.drain();
+    let first = format!(
+        "A={} P0={} P1={} P2={}",
+        show(&a.app.replace('D', "")),
+        show(&a.protos[0].replace('O', "").replace('X', "")),
+        show(&a.protos[1].replace('O', "").replace('X', "")),
+        show(&a.protos[2].replace('O', "").replace('X', "")),
+    );
+
+    // Re-dial from A.
+    let (tx, rx) = tokio::sync::oneshot::channel();
+    let _ = a.node_cmd.send(NodeCmd::DialAddress(b_addr, tx));
+    let redial = match tokio::time::timeout(wait, rx).await {
+        Ok(Ok(result)) => result,
+        _ => "none".to_string(),
+    };
+    let established_before = count(&a.app, 'E');
+    let again = if redial == "attempted" {
+        let live = live.clone();
+        let want: Vec<usize> = live.iter().map(|i| count(&a.protos[*i], 'E') + 1).collect();
+        a.wait(wait, move |n| {
+            count(&n.app, 'E') > established_before
+                && live.iter().zip(want.iter()).all(|(i, w)| count(&n.protos[*i], 'E') >= *w)
+        })
+        .await
+    } else {
+        false
+    };
+    tokio::time::sleep(settle).await;
+    a.drain();
+    let second_app = if count(&a.app, 'E') > established_before { "E" } else { "-" };
+    let told: Vec<String> = (0..N_PROTO)
+        .map(|i| {
+            // events of the second connection: everything after the first close (or all, if none)
+            let s = a.protos[i].replace('O', "").replace('X', "");
+            match s.find('C') {
+                Some(k) => show(&s[k + 1..]),
+                None => "?".to_string(),
+            }
+        })
+        .collect();
+
+    // A substream on a surviving protocol of the new connection.
+    let survivor = live.iter().copied().find(|i| *i == via).unwrap_or(live[0]);
+    let sub = if again {
+        let before = count(&a.protos[survivor], 'O');
+        let _ = a.proto_cmd[survivor].send(ProtoCmd::Open(b.peer));
+        if a.wait(wait, move |n| count(&n.protos[survivor], 'O') > before).await { "ok" } else { "none" }
+    } else {
+        "none"
+    };
+
+    format!(
+        "{first} live={live_result} redial={redial} A2={second_app} Q0={} Q1={} Q2={} sub={sub}",
+        told[0], told[1], told[2]
+    )
+}
+
+// ---------------------------------------------------------------------------------------------
+
+pub struct C07Box {
+    /// S1: deterministic.
+    local: tokio::runtime::Runtime,
+    /// S2: real sockets.
+    net: Option<Arc<tokio::runtime::Runtime>>,
+    s1: Option<S1>,
+}
+
+impl C07Box {
+    pub fn new() -> Self {
+        Self {
+            local: tokio::runtime::Builder::new_current_thread()
+                .enable_all()
+                .build()
+                .expect("runtime"),
+            net: None,
+            s1: None,
+        }
+    }
+}
+
+impl VerifBox for C07Box {
+    fn step(&mut self, line: &str) -> String {
+        let t: Vec<&str> = line.split_whitespace().collect();
+        match t.as_slice() {
+            ["protocols", n, cap, mcap] => {
+                let p = |s: &str| s.parse::<usize>().ok();
+                match (p(n), p(cap), p(mcap)) {
+                    (Some(n), Some(cap), Some(mcap)) if n <= 8 => {
+                        let _guard = self.local.enter();
+                        let s1 = S1::new(n, cap, mcap);
+                        let snapshot = s1.snapshot();
+                        self.s1 = Some(s1);
+                        format!("ok {snapshot}")
+                    }
+                    _ => "bad-op".into(),
+                }
+            }
+            ["s2", rest @ ..] => {
+                let args: HashMap<&str, &str> = crate::verif::kv(rest);
+                let rt = self
+                    .net
+                    .get_or_insert_with(|| {
+                        Arc::new(
+                            tokio::runtime::Builder::new_multi_thread()
+                                .worker_threads(2)
+                                .enable_all()
+                                .build()
+                                .expect("runtime"),
+                        )
+                    })
+                    .clone();
+                rt.block_on(async move {
+                    match tokio::time::timeout(Duration::from_secs(60), scenario(args)).await {
+                        Ok(s) => s,
+                        Err(_) => "inconclusive".to_string(),
+                    }
+                })
+            }
+            _ => match self.s1.as_mut() {
+                None => "bad-op".into(),
+                Some(s1) => self.local.block_on(s1.step(&t)),
+            },
+        }
+    }
+}
